@@ -40,6 +40,8 @@ func runC05(c *Ctx) {
 	r.Rule("R05-material", "the insufficient-material test is reached after Capture, and after (Capture)Promotion to bishop or knight", 3)
 	r.Rule("R05-mate", "AdjudicateNoLegalMoves reports Loss(side to move)/Checkmate iff the side to move is in check, else Draw/Stalemate; Win/Loss map colours correctly", 4)
 
+	r.Rule("R05-hashgate", "the per-hash occurrence counter that gates the exact re-count is sound: the board's incremental hash equals the from-scratch hash for every move kind (the rules of C07, re-decided here because a missed repetition is their direct consequence)", 12)
+	c.guard("R05-hashgate", func() { c07Delta(c, "R05-hashgate", "R05-hashgate") })
 	g := newGameModel(c, "R05-limit")
 	if g == nil {
 		return
